@@ -312,12 +312,16 @@ def conclude(prop, mod, tier, seed, cases, results, notes, t0, write=True):
         "wall_s": round(wall, 2),
         "violations": len(new_viol),
     }
+    evdir = os.environ.get("VERIF_EVIDENCE_DIR") or os.path.join(HERE, "evidence")
+    if os.environ.get("VERIF_REPO", "/repo").rstrip("/") != "/repo" and not os.environ.get("VERIF_EVIDENCE_DIR"):
+        # runs against a scratch copy (mutants, pre-fix tree) never overwrite the committed evidence
+        evdir = os.path.join(HERE, ".work", "evidence_scratch")
     if write:
-        os.makedirs(os.path.join(HERE, "evidence"), exist_ok=True)
+        os.makedirs(evdir, exist_ok=True)
         err = validate_evidence(ev)
         if err:
             lines.append("note: evidence failed schema validation: " + err)
-        with open(os.path.join(HERE, "evidence", prop + ".json"), "w") as f:
+        with open(os.path.join(evdir, prop + ".json"), "w") as f:
             json.dump(ev, f, indent=1, default=str)
     print("%s tier=%s seed=%d cases=%d held=%d violated=%d vacuous=%d inconclusive=%d oracle_checks=%d distinct_nontrivial=%d wall=%.1fs"
           % (prop, tier, seed, len(results), counts["held"], counts["violated"], counts["vacuous"], counts["inconclusive"],
